@@ -103,7 +103,6 @@ template <class MDS> const int* atTyped(const MDS& m, const std::string& form, c
 
 template <class E, class S, size_t... K> auto packExt(const std::vector<long long>& v, std::index_sequence<K...>) { return std::make_tuple(static_cast<S>(v[K])...); }
 
-inline std::vector<std::string> splitStr(const std::string& s, char c) { std::vector<std::string> o; std::stringstream ss(s); std::string t; while (std::getline(ss, t, c)) o.push_back(t); return o; }
 
 template <Kind K, class E, size_t SP, class A, class MDS2> void regView(const std::string& key) {
   using M = typename MapOf<K, E, SP>::type; using I = typename E::index_type;
